@@ -70,6 +70,7 @@ package transaction
 //@   requires v3Ready(r, transaction, configuration) && transaction.ID.Index > 0
 //@   ensures {C20} rollback-commit-only-of-the-latest-change: old(v3RbCommitState(transaction)) == configapi.TransactionPhaseStatus_PENDING && v3RbCommitState(transaction) != configapi.TransactionPhaseStatus_PENDING ==> old(configuration.Committed.Revision) == transaction.ID.Index && v3RbCommitState(transaction) == configapi.TransactionPhaseStatus_IN_PROGRESS && configuration.Committed.Target == transaction.Status.Rollback.Index
 //@   ensures {C20} rollback-restores-the-displaced-revision: configuration.Committed.Revision != old(configuration.Committed.Revision) ==> old(v3RbCommitState(transaction)) == configapi.TransactionPhaseStatus_IN_PROGRESS && old(configuration.Committed.Revision) == transaction.ID.Index && configuration.Committed.Revision == transaction.Status.Rollback.Index && configuration.Committed.Ordinal == old(configuration.Committed.Ordinal) + 1 && configuration.Committed.Index == transaction.ID.Index
+//@   ensures {C20} in-progress-rollback-writes-the-displaced-revision: old(v3RbCommitState(transaction)) == configapi.TransactionPhaseStatus_IN_PROGRESS && v3CfgStatusWrites > old(v3CfgStatusWrites) ==> configuration.Committed.Revision == transaction.Status.Rollback.Index && old(configuration.Committed.Revision) == transaction.ID.Index
 //@   ensures {C20} rollback-commit-completes-with-its-ordinal: v3RbCommitState(transaction) == configapi.TransactionPhaseStatus_COMPLETE && old(v3RbCommitState(transaction)) != configapi.TransactionPhaseStatus_COMPLETE ==> old(v3RbCommitState(transaction)) == configapi.TransactionPhaseStatus_IN_PROGRESS && transaction.Status.Rollback.Ordinal == configuration.Committed.Ordinal
 //@   ensures {C20} rollback-commit-touches-nothing-applied: configuration.Applied.Index == old(configuration.Applied.Index) && configuration.Applied.Ordinal == old(configuration.Applied.Ordinal) && configuration.Applied.Revision == old(configuration.Applied.Revision) && configuration.Applied.Target == old(configuration.Applied.Target) && deviceSetCalls == old(deviceSetCalls) && v3CommitState(transaction) == old(v3CommitState(transaction)) && v3ApplyState(transaction) == old(v3ApplyState(transaction))
 //@   ensures {C20} rollback-commit-ordinal-monotone: configuration.Committed.Ordinal >= old(configuration.Committed.Ordinal) && configuration.Committed.Change == old(configuration.Committed.Change)
